@@ -59,6 +59,8 @@ Fixpoint wpi (i : instr) (Q : qlocals -> Prop) (lo : qlocals) {struct i} : Prop 
   | IALoad _ => forall v, Q (lo_reg lo v)
   | ICvWait _ => forall b, Q (lo_to lo b)
   | IWaitLoop _ => forall lo', ltemp lo' = ltemp lo -> lev lo' = lev lo -> Q lo'
+  | IAInc EC => Q (lo_held lo (S (lheld lo)))          (* ghost: the processing guards this call holds *)
+  | IADec EC => Q (lo_held lo (pred (lheld lo)))
   | _ => Q lo
   end.
 
@@ -102,7 +104,7 @@ Qed.
 Lemma wpi_mono i : mono_at i.
 Proof.
   induction i as [i Hn | r c a b Ha Hb] using instr_ind'.
-  - intros Q Q' lo HQ H. destruct i; try (cbn [wpi] in *; solve [auto]); try contradiction.
+  - intros Q Q' lo HQ H. destruct i as [m|m|a|a|a| |timed|tt f|r c x y|timed| | |]; try destruct a; try (cbn [wpi] in *; solve [auto]); try contradiction.
     cbn [wpi] in *. intros t sh. destruct (H t sh) as [H1 H2]. split; auto.
   - intros Q Q' lo HQ H. rewrite wpi_if in *. intros sh. destruct (H sh) as [H1 H2]. split; intros Hc.
     + eapply wpl_mono_F; eauto.
@@ -170,7 +172,7 @@ Proof.
   intros Ha Hb Q lo H. apply wpl_app. apply Ha. intros lo1 A1 B1. apply Hb. intros lo2 A2 B2. apply H; congruence.
 Qed.
 
-Ltac lo_simpl := cbn [fst snd ltemp lev lb lbe lres ltimedout lidle lreg lslot lshow lo_temp lo_kept lo_idle lo_reg lo_b lo_be lo_res lo_slot lo_to lo_ev lo_show lo0] in *.
+Ltac lo_simpl := cbn [fst snd ltemp lev lb lbe lres ltimedout lidle lreg lslot lshow lheld lsnap lseen ltaking lo_temp lo_kept lo_idle lo_reg lo_b lo_be lo_res lo_slot lo_to lo_ev lo_show lo_held lo_snap lo_seen lo_taking lo0] in *.
 Ltac so_same := apply step_ok_same; lo_simpl; congruence.
 
 Ltac wp1 :=
@@ -188,6 +190,8 @@ Ltac wp1 :=
               end);
       split
   | |- wpi (IALoad _) ?Q ?lo => change (forall v, Q (lo_reg lo v)); let v := fresh "v" in intros v
+  | |- wpi (IAInc EC) ?Q ?lo => change (Q (lo_held lo (S (lheld lo))))
+  | |- wpi (IADec EC) ?Q ?lo => change (Q (lo_held lo (pred (lheld lo))))
   | |- wpi (ICvWait _) ?Q ?lo => change (forall b, Q (lo_to lo b)); let b := fresh "b" in intros b
   | |- wpi (IWaitLoop _) ?Q ?lo =>
       change (forall lo', ltemp lo' = ltemp lo -> lev lo' = lev lo -> Q lo');
@@ -238,7 +242,7 @@ Proof.
   - destruct (split_until p r) as [a b]. cbn [fst snd] in *. rewrite !count_cons. lia.
 Qed.
 
-Ltac sh_simpl := cbn [ql fl cec cnc oqm ofm nextid clog g_enq g_disp g_taken g_cleared
+Ltac sh_simpl := cbn [ql fl cec cnc oqm ofm nextid clog g_enq g_disp g_taken g_cleared g_settled g_putbacks sh_settle sh_putback
                       sh_ql sh_fl sh_ec sh_nc sh_oqm sh_ofm sh_log sh_enq sh_disp sh_take sh_clear] in *.
 
 Ltac perm :=
@@ -444,6 +448,8 @@ Lemma inflight_lo_to l b : inflight (lo_to l b) = inflight l.
 Proof. destruct l; reflexivity. Qed.
 Lemma inflight_lo_reg l v : inflight (lo_reg l v) = inflight l.
 Proof. destruct l; reflexivity. Qed.
+Lemma inflight_lo_held l v : inflight (lo_held l v) = inflight l.
+Proof. destruct l; reflexivity. Qed.
 
 (* replacing thread t *)
 Lemma CInv_replace sh ths t th sh' th' :
@@ -576,7 +582,7 @@ Proof.
     all: try destruct m; try destruct a.
     all: cbv beta iota zeta.
     all: try (apply perform_finish with (th := th); auto; cbn [status code lo];
-              try (repeat split; fail); try apply inflight_lo_reg; try apply inflight_lo_to; try exact HW).
+              try (repeat split; fail); try apply inflight_lo_reg; try apply inflight_lo_to; try apply inflight_lo_held; try exact HW).
     + apply HW.
     + apply HW.
     + apply (wake_ok _ HF).
